@@ -14,7 +14,7 @@ pub struct Regress {
 
 #[allow(dead_code)]
 fn leaf(script: &[Step]) -> ChildSpec {
-    ChildSpec::Leaf(LeafSpec { script: script.to_vec(), always: false })
+    ChildSpec::Leaf(LeafSpec { script: script.to_vec(), always: false, hint: false })
 }
 
 fn comb_case(family: Family, container: Container, children: Vec<ChildSpec>) -> Case {
@@ -52,7 +52,7 @@ pub fn cases(prop: &str) -> Vec<Regress> {
         "C15" => {
             use crate::costream::{Adapter, CoCase, SourceKind, Terminal};
             // F2: take(0) must process no item at all
-            let ready = || LeafSpec { script: vec![Step::Yield(true)], always: false };
+            let ready = || LeafSpec { script: vec![Step::Yield(true)], always: false, hint: false };
             for source in [SourceKind::Co, SourceKind::Vec] {
                 for terminal in [Terminal::CollectVec, Terminal::ForEach, Terminal::TryForEach] {
                     for (sname, stack) in [
@@ -68,6 +68,7 @@ pub fn cases(prop: &str) -> Vec<Regress> {
                         let case = CoCase {
                             source,
                             src_script: vec![Step::Yield(true); n],
+                            src_hint: false,
                             stack: stack.clone(),
                             terminal,
                             work,
